@@ -49,6 +49,10 @@ def random_case(rng, max_states=5, max_syms=3, kinds=("enfa", "nfa", "dfa"), vcs
         rng.shuffle(perm)
         sperm = list(range(k + 1))
         rng.shuffle(sperm)
+        if rng.random() < 0.2:
+            # different keys with EQUAL hashes (anything keyed by hash alone conflates them)
+            perm = [rng.randrange(2) for _ in perm]
+            sperm = [rng.randrange(2) for _ in sperm]
         case["perm"] = perm
         case["sperm"] = sperm
     if rng.random() < 0.5:
@@ -71,7 +75,8 @@ def random_case(rng, max_states=5, max_syms=3, kinds=("enfa", "nfa", "dfa"), vcs
                 edits.append(["rm_s", rng.choice(case["start"])])
             elif r < 0.85:
                 edits.append(["add_s", rng.randrange(max(n, 1))])
-            elif kind != "dfa":
+            elif kind != "dfa" or rng.random() < 0.6:
+                # on a DFA this may be a second successor for (state, symbol), which the library refuses
                 edits.append(["add_t", rng.randrange(max(n, 1)), rng.randrange(k), rng.randrange(max(n, 1))])
             else:
                 edits.append(["add_f", rng.randrange(max(n, 1))])
@@ -84,9 +89,15 @@ def random_case(rng, max_states=5, max_syms=3, kinds=("enfa", "nfa", "dfa"), vcs
     return case
 
 
-def apply_edits(fa, case):
-    """the edit script of a case through remove_transition / remove_*_state / add_*"""
+def apply_edits(fa, case, on_refused=None):
+    """the edit script of a case through remove_transition / remove_*_state / add_*; an edit the library refuses
+    with an exception must leave the automaton as it was (on_refused(edit, exception) is told otherwise)"""
+    from vf import core, extract
     for e in case.get("edits", ()):
+        before = None
+        if on_refused is not None:
+            with core.oracle_mode():
+                before = extract.fa(fa).key()
         try:
             if e[0] == "rm_t":
                 fa.remove_transition(sval(case, e[1]), aval(case, e[2]), sval(case, e[3]))
@@ -100,8 +111,11 @@ def apply_edits(fa, case):
                 fa.add_transition(sval(case, e[1]), aval(case, e[2]), sval(case, e[3]))
             elif e[0] == "add_f":
                 fa.add_final_state(sval(case, e[1]))
-        except Exception:
-            pass
+        except Exception as exc:      # noqa
+            if on_refused is not None:
+                with core.oracle_mode():
+                    if extract.fa(fa).key() != before:
+                        on_refused(e, exc)
 
 
 def random_loop_case(rng, max_states=4, token=True, vcs=None):
@@ -204,14 +218,33 @@ def build(case):
         syms = {aval(case, x[2]) for x in ops if x[0] == "t" and x[2] != EPSID} | \
                {aval(case, x[1]) for x in ops if x[0] == "y"}
         declared = {sval(case, i) for i in range(case["n"]) if i % 2 == 0}     # some states only, the rest is implied
+        tf = None
+        tlist = [(sval(case, x[1]), aval(case, x[2]), sval(case, x[3])) for x in ops if x[0] == "t"]
+        if case.get("shuffle", 0) % 2 == 0:
+            # a ready-made transition function object handed to the constructor
+            from pyformlang.finite_automaton import (State, Symbol, Epsilon, TransitionFunction,
+                                                     NondeterministicTransitionFunction)
+            tf = TransitionFunction() if case["kind"] == "dfa" else NondeterministicTransitionFunction()
+            try:
+                for p, a, q in tlist:
+                    tf.add_transition(State(p), Epsilon() if a == "epsilon" else Symbol(a), State(q))
+                tlist = []
+            except Exception:      # noqa  (a refused transition: fall back to the mutators)
+                tf = None
+                tlist = [(sval(case, x[1]), aval(case, x[2]), sval(case, x[3])) for x in ops if x[0] == "t"]
+            if tf is not None:
+                declared = declared | {p for p, _, _ in [(sval(case, x[1]), 0, 0) for x in ops if x[0] == "t"]} | \
+                    {sval(case, x[3]) for x in ops if x[0] == "t"}
         if case["kind"] == "dfa":
-            fa = cls(states=declared, input_symbols=syms, start_state=starts[0] if starts else None,
-                     final_states=finals)
+            fa = cls(states=declared, input_symbols=syms, transition_function=tf,
+                     start_state=starts[0] if starts else None, final_states=finals)
             for x in starts[1:]:
                 fa.add_start_state(x)
         else:
-            fa = cls(states=declared, input_symbols=syms, start_state=set(starts), final_states=finals)
-        fa.add_transitions([(sval(case, x[1]), aval(case, x[2]), sval(case, x[3])) for x in ops if x[0] == "t"])
+            fa = cls(states=declared, input_symbols=syms, transition_function=tf, start_state=set(starts),
+                     final_states=finals)
+        if tlist:
+            fa.add_transitions(tlist)
         return fa
     fa = cls()
     if form == "bulk":
